@@ -1,6 +1,30 @@
 package mc
 
-import "syscall"
+import (
+	"os"
+	"strconv"
+	"strings"
+	"syscall"
+)
 
 func dupFD(fd int) (int, error) { return syscall.Dup(fd) }
 func dup2FD(from, to int) error { return syscall.Dup3(from, to, 0) }
+
+// claimUnit atomically takes the next unit index from the shared counter file.
+func claimUnit(path string) int {
+	f, err := os.OpenFile(path, os.O_RDWR, 0)
+	if err != nil {
+		return 1 << 30
+	}
+	defer f.Close()
+	if err := syscall.Flock(int(f.Fd()), syscall.LOCK_EX); err != nil {
+		return 1 << 30
+	}
+	defer syscall.Flock(int(f.Fd()), syscall.LOCK_UN)
+	var buf [32]byte
+	n, _ := f.ReadAt(buf[:], 0)
+	v, _ := strconv.Atoi(strings.TrimSpace(string(buf[:n])))
+	f.Truncate(0)
+	f.WriteAt([]byte(strconv.Itoa(v+1)), 0)
+	return v
+}
